@@ -16,6 +16,7 @@ import (
 	"io/ioutil"
 	"os"
 	"path/filepath"
+	"time"
 	"unsafe"
 
 	"github.com/ProjectSerenity/firefly/kernel/device/acpi/table"
@@ -136,21 +137,44 @@ func (h *c13h) probes(r *vrng, maxDeclared, nRandom int) {
 	h.lookups(r, nRandom)
 }
 
-func (h *c13h) parseTable(p *Parser, handle uint8, label string, payload []byte) {
-	res := "ok"
+// c13hangs counts parser runs that did not return; each leaves a spinning goroutine behind, so the
+// parser-driven part stops after a few of them.
+var c13hangs int
+
+// parseTable loads one table with the real parser. The parser runs in its own goroutine: if it does
+// not return within the watchdog time (it walks the tree with unbounded loops, so a cyclic link
+// left behind by an earlier fault makes it spin), the observation is `hang`, the pool is not dumped
+// (it is still being written) and the tree is abandoned. Returns false when the case must stop.
+func (h *c13h) parseTable(p *Parser, handle uint8, label string, payload []byte) bool {
 	hdr := c13stream(payload)
-	func() {
+	done := make(chan string, 1)
+	go func() {
+		res := "ok"
 		defer func() {
 			if recover() != nil {
 				res = "panic"
 			}
+			done <- res
 		}()
 		if err := p.ParseAML(handle, "DSDT", hdr); err != nil {
 			res = "err"
 		}
 	}()
+	var res string
+	select {
+	case res = <-done:
+	case <-time.After(10 * time.Second):
+		c13hangs++
+		h.out.printf("PT %d %s | hang 0 0 0\n", handle, label)
+		h.out.w.Flush()
+		return false
+	}
 	h.out.printf("PT %d %s | %s %d %d", handle, label, res, h.tree.freeListHeadIndex, len(h.tree.objPool))
 	h.diff()
+	h.out.w.Flush()
+	// a pool with a cyclic next/parent chain is not handed to the parser again: the dump above is
+	// what the oracle judges (and rejects)
+	return res != "panic" && h.acyclic()
 }
 
 // ---- small generated tables ----
@@ -368,7 +392,9 @@ func c13parseCase(out *verifWriter, r *vrng, labels []string, tables [][]byte, m
 	h.mut(fmt.Sprintf("DS %d 0", info), func() uint32 { h.tree.CreateDefaultScopes(0); return 0 })
 	p := NewParser(ioutil.Discard, h.tree)
 	for i, tb := range tables {
-		h.parseTable(p, uint8(i+1), labels[i], tb)
+		if c13hangs >= 3 || !h.parseTable(p, uint8(i+1), labels[i], tb) {
+			return
+		}
 		h.probes(r, maxDeclared, nRandom)
 	}
 }
